@@ -81,18 +81,18 @@ Definition kcase_ok (c: list site * list op * list (option outcome)) : bool :=
 
 (* ---- the defect, in the faithful model: the property's no-field clause is violated ---- *)
 Definition kf_sites : list site :=
-  [Site [0] false true false false false false; Site [1] false true false false false false].
+  [Site [0] false true false false false false 0; Site [1] false true false false false false 0].
 Definition kf_pre : list op :=
-  [Define [] [] [] [0]; Define [0] [] [] [1]; Decode 0 None [0]].
+  [Define [] [] [] [0]; Define [0] [] [] [1]; Decode 0 [] [0]].
 
 Lemma nofield_inherited_unpacker_refuted :
   (* after C0's unpacker was compiled by any earlier decode ... *)
-  nth_error (krun kf_sites (kf_pre ++ [Decode 1 None [0; 1]])) 3 = Some (Some ONotFound)
+  nth_error (krun kf_sites (kf_pre ++ [Decode 1 [] [0; 1]])) 3 = Some (Some ONotFound)
   (* ... C1 (eligible, accepts) is skipped, although the property demands it: *)
-  /\ ~ nofield_spec acc_req (defs kf_pre) (Site [1] false true false false false false) [0; 1] ONotFound
-  /\ nofield_spec acc_req (defs kf_pre) (Site [1] false true false false false false) [0; 1] (OInst 1)
+  /\ ~ nofield_spec acc_req (defs kf_pre) (Site [1] false true false false false false 0) [0; 1] ONotFound
+  /\ nofield_spec acc_req (defs kf_pre) (Site [1] false true false false false false 0) [0; 1] (OInst 1)
   (* and without the earlier decode the same call answers C1: the answer depends on the history *)
-  /\ nth_error (krun kf_sites [Define [] [] [] [0]; Define [0] [] [] [1]; Decode 1 None [0; 1]]) 2 = Some (Some (OInst 1)).
+  /\ nth_error (krun kf_sites [Define [] [] [] [0]; Define [0] [] [] [1]; Decode 1 [] [0; 1]]) 2 = Some (Some (OInst 1)).
 Proof.
   split; [reflexivity|]. split; [|split; [|reflexivity]].
   - intros [_ [_ [_ E]]]. vm_compute in E. discriminate.
